@@ -175,6 +175,10 @@ def dec(x, W=None):
             return np.float64(x["$npf"])
         if "$npi" in x:
             return np.int64(x["$npi"])
+        if "$nps" in x:
+            return np.dtype(x["$nps"][0]).type(x["$nps"][1])  # numpy scalar of the named dtype (uint8, int8, uint16, ...)
+        if "$npa" in x:
+            return np.array(x["$npa"][1], dtype=x["$npa"][0])
         if "$np32" in x:
             return np.float32(float.fromhex(x["$np32"]))  # single-precision scalar (hex of its exact value)
         if "$a32" in x:
@@ -217,6 +221,10 @@ def ref_vols(x):
             return float(x["$npf"])
         if "$npi" in x:
             return int(x["$npi"])
+        if "$nps" in x:
+            return x["$nps"][1]
+        if "$npa" in x:
+            return list(x["$npa"][1])
         if "$np32" in x:
             return float.fromhex(x["$np32"])
         if "$a32" in x:
